@@ -340,6 +340,16 @@ func main() {
 			}
 		}
 		t := vh.RandType(r, to, 0)
+		if i%83 == 7 {
+			// a struct whose later fields sit beyond byte offset 64K (field offsets are kept in fixed-width integers)
+			t = reflect.StructOf([]reflect.StructField{
+				{Name: "Pad", Type: reflect.ArrayOf(66000, reflect.TypeOf(uint8(0)))},
+				{Name: "N", Type: reflect.TypeOf(int32(0))},
+				{Name: "S", Type: reflect.TypeOf(""), Tag: `codec:"s,omitempty"`},
+				{Name: "L", Type: reflect.TypeOf([]int16(nil))},
+				{Name: "V", Type: t},
+			})
+		}
 		v := vh.RandValue(r, t, vh.ValOpts{BigLens: true, NoNaN: format == "json", NoInf: format == "json", MaxLen: 5})
 		h := vh.NewHandle(format, o)
 		line := fmt.Sprintf("%d|%s|%s|%s", i, format, o.String(), t.String())
